@@ -147,13 +147,16 @@ class _SpinWatch(object):
     threads) inside one case.  Processor time, not wall-clock time: a loaded machine does not trip it."""
 
     def __init__(self, limit):
-        self.limit = float(limit)
+        self.limit = float(limit) if limit else None
 
     def _fire(self, *_a):
         raise CaseSpin('a single case used more than %.0f s of processor time' % self.limit)
 
     def __enter__(self):
         import signal
+        if not self.limit:
+            self.old = None
+            return self
         try:
             self.old = signal.signal(signal.SIGVTALRM, self._fire)
             signal.setitimer(signal.ITIMER_VIRTUAL, self.limit)
@@ -195,6 +198,11 @@ def shard_main(pid, tier, seed, i, n):
         idx = -1
         truncated = False
         mem_alarmed = False
+        # a case is one simulated connection (milliseconds) in most checks; where a case is a whole exploration block
+        # (the schedule searches of C03/C11/C12: thousands of executions) the module says so and the guard is off
+        case_cpu_limit = getattr(mod, 'CASE_CPU_LIMIT_S', {'quick': 60.0, 'thorough': 600.0})
+        if isinstance(case_cpu_limit, dict):
+            case_cpu_limit = case_cpu_limit.get(tier)
         try:
             import resource
             resource.setrlimit(resource.RLIMIT_AS, (MEM_LIMIT, resource.getrlimit(resource.RLIMIT_AS)[1]))
@@ -215,7 +223,7 @@ def shard_main(pid, tier, seed, i, n):
                     acc.count2('case_env', k_)
             acc.evaluations += 1
             try:
-                with _SpinWatch(getattr(mod, 'CASE_CPU_LIMIT_S', 60.0)):
+                with _SpinWatch(case_cpu_limit):
                     mod.run_case(case, acc)
                 if _maxrss() > MEM_ALARM and not mem_alarmed:
                     # (the library turns the MemoryError into an ordinary Disconnected - without the address-space limit
